@@ -45,11 +45,13 @@ type Syscall struct {
 // ExtractSyscalls reads the objdump file and returns the syscalls that it
 // finds.
 func ExtractSyscalls(arch *arch.Info, objDump string) ([]Syscall, error) {
+	// The audit architecture ID alone does not identify the syscall table:
+	// x32 shares its ID with x86_64 and differs in the syscall mask.
 	var p *parser
-	switch arch.ID {
-	case i386Parser.ID:
+	switch {
+	case arch.ID == i386Parser.ID && arch.SeccompMask == i386Parser.SeccompMask:
 		p = i386Parser
-	case x86_64Parser.ID:
+	case arch.ID == x86_64Parser.ID && arch.SeccompMask == x86_64Parser.SeccompMask:
 		p = x86_64Parser
 	default:
 		return nil, fmt.Errorf("unsupported architecture %v", arch.Name)
